@@ -203,7 +203,7 @@ def h_aggregation(ctx):
     p1 = ctx.real('tx_power_same_w', lo=1e-5, hi=5e-3)
     p2 = ctx.real('tx_power_other_w', lo=1e-5, hi=5e-3)
     ctx.assume(Not(eq(p1, p2)) if ctx.mode == 'sym' else p1 != p2)
-    which = ctx.choice('differing field', ['tx_power', 'power', 'spacing', 'none'])
+    which = ctx.choice('differing field', ['tx_power', 'power', 'spacing', 'none', 'hop_types', 'include_nodes'])
     if which == 'power':
         ctx.assume(Not(eq(p2, 1e-3)) if ctx.mode == 'sym' else p2 != 1e-3)
 
@@ -214,8 +214,10 @@ def h_aggregation(ctx):
                   equalization_offset_db=0, tx_power=txp, tx_osnr=40, effective_freq_slot=[{'N': None, 'M': None}])
         kw.update(over)
         return PathRequest(**kw)
-    over = {'tx_power': dict(), 'power': dict(power=p2), 'spacing': dict(spacing=75e9), 'none': dict()}[which]
-    r1, r3 = mk('r1', 100e9, p1), mk('r3', 50e9, p1)
+    over = {'tx_power': dict(), 'power': dict(power=p2), 'spacing': dict(spacing=75e9), 'none': dict(),
+            'hop_types': dict(nodes_list=['roadm X'], loose_list=['STRICT']), 'include_nodes': dict(nodes_list=['roadm Y'], loose_list=['LOOSE'])}[which]
+    base = dict(nodes_list=['roadm X'], loose_list=['LOOSE']) if which in ('hop_types', 'include_nodes') else {}
+    r1, r3 = mk('r1', 100e9, p1, **base), mk('r3', 50e9, p1, **base)
     r2 = mk('r2', 30e9, p2 if which == 'tx_power' else p1, **over)
     rqs, _ = requests_aggregation([r1, r2, r3], [])
     ids = sorted(r.request_id for r in rqs)
